@@ -469,13 +469,13 @@ class ConnectionPool(Entity):
 
     def _handle_warmup(self, event: Event) -> Generator[float, None, list[Event] | None]:
         """Create minimum connections."""
-        events = []
-
         while self._total_connections < self._min_connections:
             connection = yield from self._create_connection()
             self._idle_connections.append(connection)
 
-            # Schedule idle timeout check
+            # Schedule the idle timeout check now: creating the remaining
+            # connections takes time, and an event held back until the end of
+            # the warmup could already lie in the past.
             timeout_event = Event(
                 time=self.now + Duration.from_seconds(self._idle_timeout),
                 event_type="_pool_idle_timeout",
@@ -487,7 +487,7 @@ class ConnectionPool(Entity):
                     },
                 },
             )
-            events.append(timeout_event)
+            yield 0.0, [timeout_event]
 
         logger.debug(
             "[%s] Warmup complete: created %d connections",
@@ -495,7 +495,7 @@ class ConnectionPool(Entity):
             self._min_connections,
         )
 
-        return events if events else None
+        return None
 
     def _handle_idle_timeout(self, event: Event) -> list[Event] | None:
         """Handle idle timeout for a connection."""
